@@ -12,7 +12,7 @@ F(kind, req) == [kind |-> kind, sess |-> <<0, 0, 0, 0>>, ctx |-> <<1, 2, 3, 4, 5
 WriteA == Rq("write", 1, 1, 2, "INT", << <<5, 0>>, <<6, 0>> >>)
 ReadA  == Rq("read", 1, 0 - 1, 3, "INT", <<>>)
 Good == { F("listidentity", ReadA), F("rr", WriteA), F("rr", ReadA), F("unregister", ReadA) }
-Grams == { [kind |-> "good", f |-> f, peer |-> p] : f \in Good, p \in {1, 2} } \cup { [kind |-> "bad", peer |-> p, intact |-> FALSE] : p \in {1, 2} }
+Grams == { [kind |-> "good", f |-> f, peer |-> p] : f \in Good, p \in {1, 2} } \cup { [kind |-> "bad", peer |-> p, intact |-> FALSE, b |-> <<>>] : p \in {1, 2} }
 VARIABLE sc
 mvars == <<uvars, sc>>
 MInit == /\ sc \in UNION { { [cfg |-> UCfg, pers |-> [k |-> "any"], mem0 |-> ZeroMemOf(UCfg), grams |-> gs] : gs \in [1 .. k -> Grams] } : k \in 1 .. MaxGrams }
